@@ -717,7 +717,15 @@ impl<T: Smp> Inst<T> {
                     k_partial as usize
                 }
             } else {
-                in_next + in_extra
+                // "in_extra_pc": [e0, e1, ...] - every channel longer than required by its own amount
+                in_next
+                    + op
+                        .get("in_extra_pc")
+                        .and_then(|a| a.as_array())
+                        .and_then(|a| a.get(c))
+                        .and_then(|x| x.as_i64())
+                        .map(|x| x.max(0) as usize)
+                        .unwrap_or(in_extra)
             };
             if let Some(s) = &short_in {
                 if s.len() == 2 && s[0].as_i64() == Some(c as i64) {
@@ -757,7 +765,8 @@ impl<T: Smp> Inst<T> {
         let garbage = gs(op, "out_fill", "sentinel") == "garbage";
         let fillv = move |c: usize, k: usize| -> T {
             if garbage {
-                T::from64(0.125 + (((k * 31 + c * 7 + 3) % 97) as f64) / 128.0)
+                // not round numbers: an output frame must not coincide with what was there before
+                T::from64(0.314_159_265_358_979_3 + (((k * 31 + c * 7 + 3) % 97) as f64) * 0.007_919_173 + (c as f64) * 0.000_137_1)
             } else {
                 sent
             }
@@ -767,7 +776,13 @@ impl<T: Smp> Inst<T> {
             let mut len = match out_mode {
                 "max" => self.res.out_max(),
                 _ => out_next,
-            } + out_extra;
+            } + op
+                .get("out_extra_pc")
+                .and_then(|a| a.as_array())
+                .and_then(|a| a.get(c))
+                .and_then(|x| x.as_i64())
+                .map(|x| x.max(0) as usize)
+                .unwrap_or(out_extra);
             if let Some(s) = &short_out {
                 if s.len() == 2 && s[0].as_i64() == Some(c as i64) {
                     let by = s[1].as_i64().unwrap_or(1);
